@@ -321,6 +321,11 @@ static std::unique_ptr<Tree> make_tree(const std::string& flavour, const std::st
       return make_own<long long>([](const Key& k) { return static_cast<long long>(k.at(0)) * 3221225472LL; },
                                  [](long long data, long long key) -> long long { return data - key; },
                                  [](long long x) { return std::to_string(x / 3221225472LL); });
+   if (cmp == "vecsize")   // an element type with an initializer-list constructor, built from a key of its element type: the element made
+                           // for key n is `vector<size_t>(n)` -- n elements -- and is ordered by that
+      return make_own<std::vector<std::size_t>>([](const Key& k) { return static_cast<std::size_t>(k.at(0)); },
+                                                [](const std::vector<std::size_t>& data, std::size_t key) { return data.size() < key ? -1 : (key < data.size() ? 1 : 0); },
+                                                [](const std::vector<std::size_t>& x) { return std::to_string(static_cast<long>(x.size())); });
    if (cmp == "lexdiff")
       return make_own<Key>([](const Key& k) { return k; },
                            [](const Key& a, const Key& b) -> long {
